@@ -349,17 +349,20 @@ def r21_cmp_minmax(u, key, text):
     return text
 
 
-def r22_filter_count(u, key, text):
-    """R22: `S.iter().filter(|&&x| P).count()` -> `slice_count(S, |x: T| -> (b: bool) ensures b == P' { P })` is too type-directed;
-    the one site in /repo has P = `starts_declaration(token)`, a plain fn call on the element, so the rewrite is
-    `S.iter().filter(|&&x| F(x)).count()` -> `slice_count(S, F)` with the VERIFIED helper slice_count (prelude/slice_count.rs)."""
+def r22_filter_count(ghost_pred):
+    """R22: `S.iter().filter(|&&x| F(x)).count()` -> `slice_count(S, F, Ghost(P))` with the VERIFIED helper slice_count
+    (prelude/slice_count.rs); P is the ghost predicate that the exec function F computes (checked by Verus at the call:
+    F's postcondition must imply b == P(x))."""
     pat = re.compile(r'(\w+(?:\s*\.\s*\w+\(\))*?)\s*\.iter\(\)\s*\.filter\(\|&&(\w+)\|\s*(\w+)\(\2\)\)\s*\.count\(\)', re.S)
-    m = pat.search(text)
-    if not m:
-        return text
-    u.rules['R22'] += 1
-    recv = re.sub(r'\s+', '', m.group(1))
-    return text[:m.start()] + 'slice_count(%s, %s)' % (recv, m.group(3)) + text[m.end():]
+
+    def rule(u, key, text):
+        m = pat.search(text)
+        if not m:
+            return text
+        u.rules['R22'] += 1
+        recv = re.sub(r'\s+', '', m.group(1))
+        return text[:m.start()] + 'slice_count(%s, %s, Ghost(%s))' % (recv, m.group(3), ghost_pred) + text[m.end():]
+    return rule
 
 
 def r23_push_within_capacity(recv):
